@@ -101,7 +101,7 @@ class Run:
         """Leg M: exhaustive check of the design; failure is a spec bug => Infra."""
         r = self.tlc(module, cfg, **kw)
         if not r.ok:
-            raise Infra("model check %s/%s failed (spec bug, not a verdict):\n%s" % (module, cfg, r.out[-3000:]))
+            raise Infra("model check %s/%s failed (spec bug, not a verdict):\n%s" % (module, cfg, (r.out[:1500] + "\n...\n" + r.out[-1500:]) if len(r.out) > 3000 else r.out))
         self.cov["states"] += r.distinct
         self.cov["transitions"] += r.generated
         self.cov["models"].append(dict(module=module, cfg=cfg, distinct=r.distinct, generated=r.generated))
@@ -111,7 +111,9 @@ class Run:
         """Generation / judging run (ASSUME-driven or trace spec); must end without TLC error."""
         r = self.tlc(module, cfg, **kw)
         if not r.ok:
-            raise Infra("TLC run %s/%s failed:\n%s" % (module, cfg, r.out[-3000:]))
+            ls = r.out.splitlines()
+            errs = [" | ".join(x[:600] for x in ls[i:i + 6]) for i, x in enumerate(ls) if x.startswith("Error")][:3]
+            raise Infra("TLC run %s/%s failed:\n%s\n...\n%s" % (module, cfg, "\n".join(errs), r.out[-2000:]))
         return r
 
     def spec_path(self, name):
